@@ -94,7 +94,7 @@ def gen_cases(tier, seed):
     if tier == 'quick':
         n = 600
     else:
-        n = 16 * 4000
+        n = 16 * 20000
     for i in range(n):
         rng = random.Random(f'C04/{seed}/{tier}/{i}')
         names = 'abc'
